@@ -353,6 +353,24 @@ func c20(c *core.Check) {
 	}
 
 	r4 := c.Rule("R4", "serializeStringValue escapes \", \\, LF, CR, FF; serializeURL additionally ', space, TAB, ( and ); serializeName passes through only [A-Za-z0-9_-] and non-ASCII", 3)
+	// an escaped leading digit (or control character) of an identifier is a hexadecimal escape: it must end with a space
+	if si := p.Fn("css/parser", "serializeIdentifier"); si == nil {
+		r4.Anchor("css/parser.serializeIdentifier")
+	} else {
+		nHex := 0
+		core.Instrs(si, func(in ssa.Instruction) {
+			// fmt.Sprintf("\\%X…", c) and the literal escapes stored into the suffix
+			if call, ok := in.(*ssa.Call); ok && call.Call.StaticCallee() != nil && call.Call.StaticCallee().Name() == "Sprintf" && len(call.Call.Args) >= 1 {
+				if f, ok := core.ConstStr(call.Call.Args[0]); ok && strings.Contains(f, "%X") {
+					nHex++
+					r4.Cond(strings.HasSuffix(f, " "), "serializeIdentifier | hexadecimal escape of a leading digit", p.Pos(call.Pos()), fmt.Sprintf("format %q ends with the terminating space", f), fmt.Sprintf("format %q does not end the escape with a space: a following hexadecimal digit or letter a-f is read as part of the escape", f))
+				}
+			}
+		})
+		if nHex == 0 {
+			r4.Unknown("serializeIdentifier | hexadecimal escape of a leading digit", p.Pos(si.Pos()), "no Sprintf with a %X format found")
+		}
+	}
 	type esc struct {
 		fn   string
 		need []rune
